@@ -38,3 +38,34 @@ impl SourceStateView {
         v
     }
 }
+
+/// Mint an NTS client session against `keyset` without running a key exchange:
+/// fixed AES-SIV-CMAC-256 keys derived from `key_tag`, and `n_cookies` (at most 8)
+/// cookies encoded under the key set's current primary key. What a successful
+/// NTS-KE would have handed to `NtpSource`.
+pub fn mint_nts_session(
+    keyset: &crate::keyset::KeySet,
+    key_tag: u8,
+    n_cookies: usize,
+) -> Box<crate::source::SourceNtsData> {
+    use crate::packet::{AesSivCmac256, Cipher};
+    fn key(tag: u8) -> Box<dyn Cipher> {
+        Box::new(AesSivCmac256::new(
+            (0..32u8).map(|i| i.wrapping_mul(7).wrapping_add(tag)).collect(),
+        ))
+    }
+    let decoded = crate::keyset::DecodedServerCookie {
+        algorithm: crate::nts::AeadAlgorithm::AeadAesSivCmac256,
+        s2c: key(key_tag),
+        c2s: key(key_tag ^ 0x80),
+    };
+    let mut cookies = crate::cookiestash::CookieStash::default();
+    for _ in 0..n_cookies.min(crate::cookiestash::MAX_COOKIES) {
+        cookies.store(keyset.encode_cookie(&decoded));
+    }
+    Box::new(crate::source::SourceNtsData {
+        cookies,
+        c2s: key(key_tag ^ 0x80),
+        s2c: key(key_tag),
+    })
+}
